@@ -610,8 +610,16 @@ def _load_bearing(rep: Report, repo: Repo):
                                                 "dict(solver_options or {})")
     rep.check(ok, R, "block_diagonalization::block_diagonalize copies solver_options before use", norm(so[0].value) if so else "", repo.loc("block_diagonalization", f))
     f = repo.find("block_diagonalization::solve_sylvester_direct", R)
-    fo = [n for n in own_nodes(f) if isinstance(n, ast.Assign) and norm(n.targets[0]) == "factorization_options"]
-    ok = len(fo) == 1 and norm(fo[0].value) == "dict(solver_options)"
+    # every mapping that is popped from must be a private copy of the caller's options
+    popped = {norm(c.func.value) for c in own_nodes(f) if isinstance(c, ast.Call) and isinstance(c.func, ast.Attribute)
+              and c.func.attr in ("pop", "popitem", "clear", "update", "setdefault") and isinstance(c.func.value, ast.Name)}
+    COPIES = ("dict(solver_options)", "solver_options.copy()", "{**solver_options}", "copy(solver_options)", "copy.copy(solver_options)",
+              "dict(**solver_options)")
+    ok = bool(popped)
+    for nm in popped:
+        vals = [norm(n.value) for n in own_nodes(f) if isinstance(n, ast.Assign) and any(norm(t) == nm for t in n.targets)]
+        if nm == "solver_options" or not vals or any(v not in COPIES for v in vals):
+            ok = False
     rep.check(ok, R, "block_diagonalization::solve_sylvester_direct pops deprecated keys from a private copy of the options", "", repo.loc("block_diagonalization", f))
     # the caller's mapping handed to series_computation is a fresh literal
     calls = [n for n in own_nodes(repo.find("block_diagonalization::block_diagonalize", R)) if isinstance(n, ast.Call) and call_name(n) == "series_computation"]
